@@ -36,6 +36,7 @@ class TournamentSelection(GeneticStep):
         target_size: int,
         generation: int,
     ) -> Iterator[Individual]:
+        population = list(population)
         candidates = list(population)
         evaluator.evaluate(problem, candidates)
         for _ in range(target_size):
